@@ -84,3 +84,20 @@ impl VotingProposal {
     pub uninterp spec fn scripted(&self) -> bool;
     #[verifier::external_body] pub fn has_script_hash(&self) -> (r: bool) ensures r == self.scripted() { unimplemented!() }
 }
+
+// ---- WithdrawalsBuilder::build: what is written into the body (C10: the reward redeemer ranks are ranks among EXACTLY these accounts)
+impl Clone for RewardAddress { #[verifier::external_body] fn clone(&self) -> (r: Self) ensures r == *self { unimplemented!() } }
+/// the body's withdrawals (a LinkedHashMap<RewardAddress, Coin>) as the sequence of (account, coin) pairs it was collected from
+pub struct Withdrawals(pub WdMap);
+#[verifier::external_body] pub struct WdMap { _p: core::marker::PhantomData<u8> }
+impl WdMap { pub uninterp spec fn pairs(&self) -> Seq<(RewardAddress, Coin)>; }
+/// `self.withdrawals.iter().map(|(k, (v, _))| (k, v)).collect()` (R-projcollect): references to the account and the coin of every entry, in order
+#[verifier::external_body] pub fn wd_key_coin_refs_(w: &Vec<(RewardAddress, (Coin, Option<ScriptWitnessType>))>) -> (r: Vec<(&RewardAddress, &Coin)>)
+    ensures r@.len() == w@.len(), forall|i: int| 0 <= i < w@.len() ==> *(#[trigger] r@[i]).0 == w@[i].0 && *r@[i].1 == w@[i].1.0 { unimplemented!() }
+/// `entries.into_iter().map(|(k, v)| (k.clone(), v.clone())).collect()` into the map (R-projcollect): the cloned pairs, in order
+#[verifier::external_body] pub fn wd_collect_(e: Vec<(&RewardAddress, &Coin)>) -> (r: WdMap)
+    ensures r.pairs().len() == e@.len(), forall|i: int| 0 <= i < e@.len() ==> (#[trigger] r.pairs()[i]) == (*e@[i].0, *e@[i].1) { unimplemented!() }
+/// `Vec::sort_by` with a comparator closure (std: a stable sort; ASSUMED): the result is a permutation of the input - nothing is added or lost
+#[verifier::external_body] pub fn vec_sort_by_<T, F: Fn(&T, &T) -> core::cmp::Ordering>(v: &mut Vec<T>, cmp: F)
+    requires forall|a: &T, b: &T| call_requires(cmp, (a, b))
+    ensures final(v)@.to_multiset() == old(v)@.to_multiset() { unimplemented!() }
